@@ -168,12 +168,13 @@ impl Cell {
             return None;
         }
 
-        if cursor.col + cell_size.width <= max_width {
+        // NOTE: size of the cell can be arbitrary large (glyph size from JSON document)
+        if cursor.col.saturating_add(cell_size.width) <= max_width {
             // enough space to put cell
             let pos = *cursor;
             cursor.col += cell_size.width;
             size.width = max(size.width, cursor.col);
-            size.height = max(size.height, cursor.row + cell_size.height);
+            size.height = max(size.height, cursor.row.saturating_add(cell_size.height));
             Some(pos)
         } else if !wraps {
             None
@@ -186,7 +187,7 @@ impl Cell {
             let pos = *cursor;
             cursor.col = min(cell_size.width, max_width);
             size.width = max(size.width, cursor.col);
-            size.height = max(size.height, cursor.row + cell_size.height);
+            size.height = max(size.height, cursor.row.saturating_add(cell_size.height));
             Some(pos)
         }
     }
